@@ -203,17 +203,19 @@ class SymTime(_real):
 
     def _wallclock(self):
         if self._off is None:
+            if type(self._wall) is _LazyWall:
+                self._wall = self._wall.inst + _local_offset_of_instant(self._wall.inst)
             return self._wall
         return self._inst + self._off
 
     def _concrete(self):
-        return not (_is_sym(self._off) or _is_sym(self._wall) or _is_sym(self._inst))
+        return not (_is_sym(self._off) or _is_sym(self._inst) or (self._off is None and _is_sym(self._wallclock())))
 
     def to_real(self):
         if not self._concrete():
             raise StubEscape("to_real on symbolic time")
         if self._off is None:
-            return _real(1970, 1, 1) + _dt.timedelta(microseconds=self._wall)
+            return _real(1970, 1, 1) + _dt.timedelta(microseconds=self._wallclock())
         t = EPOCH + _dt.timedelta(microseconds=self._inst)
         if self._off == 0:
             return t
@@ -275,8 +277,8 @@ class SymTime(_real):
             return SymTime(inst, 0)
         if tz is not None:
             raise StubEscape(f"fromtimestamp(tz={tz!r})")
-        g = _local_offset_of_instant(inst)
-        return SymTime(inst, None, inst + g)
+        # naive local time: the wall value is only materialised if something asks for it
+        return SymTime(inst, None, _LazyWall(inst))
 
     @classmethod
     def now(cls, tz=None):
@@ -297,7 +299,7 @@ class SymTime(_real):
         if (self._off is None) != (o._off is None):
             return None
         if self._off is None:
-            return self._wall, o._wall
+            return self._wallclock(), o._wallclock()
         return self._inst, o._inst
 
     def _ord(self, o, f):
@@ -364,7 +366,7 @@ class SymTime(_real):
 
     def __repr__(self):
         if self._off is None:
-            return f"SymTime.naive({self._wall!r})"
+            return f"SymTime.naive({self._wall!r})" if type(self._wall) is not _LazyWall else f"SymTime.local_of_instant({self._inst_cache!r})"
         return f"SymTime({self._inst_cache!r}, off={self._off!r})"
 
     __str__ = __repr__
@@ -373,7 +375,7 @@ class SymTime(_real):
         if isinstance(o, _dt.timedelta):
             d = o // _dt.timedelta(microseconds=1)
             if self._off is None:
-                return SymTime.naive(self._wall + d)
+                return SymTime.naive(self._wallclock() + d)
             return SymTime(self._inst + d, self._off)
         return NotImplemented
 
@@ -409,6 +411,13 @@ class _SymTZ(_dt.tzinfo):
 
 
 _SYMTZ = _SymTZ()
+
+
+class _LazyWall:
+    __slots__ = ("inst",)
+
+    def __init__(self, inst):
+        self.inst = inst
 
 
 class _Tick:
